@@ -14,22 +14,29 @@ for d in sorted(glob.glob(V + "/seeded/C*/m*")):
     targets.append((prop, mk, d))
 resf = V + "/seeded/RESULTS.json"
 results = json.load(open(resf)) if os.path.exists(resf) else {}
-assert subprocess.run("git -C /repo status --porcelain", shell=True, capture_output=True, text=True).stdout.strip() == "", "/repo not clean"
+# work on a private worktree of /repo's HEAD (other agents use /repo concurrently); the registered checks themselves
+# always run against /repo - VERIF_REPO only redirects them for this experiment
+WT = os.environ.get("SEED_WT", "/tmp/seedwt")
+if not os.path.isdir(WT):
+    subprocess.run("git -C /repo worktree add --detach %s HEAD" % WT, shell=True, check=True)
+head = subprocess.run("git -C /repo rev-parse HEAD", shell=True, capture_output=True, text=True).stdout.strip()
+subprocess.run("git -C %s checkout -q --detach %s && git -C %s checkout -- . && git -C %s clean -fdq" % (WT, head, WT, WT), shell=True, check=True)
+os.environ["VERIF_REPO"] = WT
 for prop, mk, d in targets:
     meta = json.load(open(d + "/meta.json"))
     checks = [prop] + meta.get("also_check", [])
-    r = subprocess.run("git -C /repo apply %s/patch.diff" % d, shell=True)
+    r = subprocess.run("git -C %s apply %s/patch.diff" % (WT, d), shell=True)
     if r.returncode != 0:
         print("cannot apply", d); continue
     try:
         for c in checks:
             t = time.time()
-            p = subprocess.run(["./check", c, "--tier", tier], cwd=V, capture_output=True, text=True)
+            p = subprocess.run(["./check", c, "--tier", tier], cwd=V, env=dict(os.environ, VERIF_WORK_SUFFIX="-seed", VERIF_EVIDENCE_DIR="/verif/work/seed-evidence", VERIF_REPLAYS_DIR="/verif/work/seed-replays"), capture_output=True, text=True)
             viol = [l for l in p.stdout.splitlines() if l.startswith("VIOLATION")]
             key = "%s/%s" % (prop, mk)
             results.setdefault(key, {})[c + ":" + tier] = {"rc": p.returncode, "caught": p.returncode == 1 and bool(viol), "s": round(time.time() - t, 1),
                                                             "stderr_tail": p.stderr[-600:]}
             print("%s by %s (%s): rc=%d caught=%s %.0fs" % (key, c, tier, p.returncode, p.returncode == 1 and bool(viol), time.time() - t), flush=True)
     finally:
-        subprocess.run("git -C /repo checkout -- .", shell=True)
+        subprocess.run("git -C %s checkout -- ." % WT, shell=True)
     json.dump(results, open(resf, "w"), indent=1)
